@@ -15,13 +15,27 @@ signal delivery and the OS are observed by the sanitizer runs of the corresponde
   idle_tick_no_crash                    repaired defect 1 at model level
   hooks_keep_invariant                  whatever a task does (any nesting), the invariant survives it
 -/
-import NV.C09.Total
+import NV.C09.TraceThms
 import NV.C09.Lemmas
 import NV.C09.Spec
 
 namespace NV.C09
 
 example : Fresh ({} : W) := ⟨rfl, fun _ => rfl, rfl, rfl, rfl, rfl⟩
+
+/-- non-vacuity of the trace-level clauses: they apply to a run in which errors are raised in three task kinds
+    under a recursively failing master handler -/
+example :
+    let S : Scripts := { hook := fun o k => match o, k with
+                            | .obj _, .hb => [.err]
+                            | .user _, .cmd "boom" => [.cerr, .err]
+                            | .user _, .netdead => [.err]
+                            | _, _ => [.ok],
+                         connect := fun _ => .ok }
+    clauseCrash (events S { meh := .recurse, hbs := [.obj 1] } [[.tick 2], [.conn 1], [.send 1 "boom/"], [.close 1]]) = [] ∧
+    clauseReport (events S { meh := .recurse, hbs := [.obj 1] } [[.tick 2], [.conn 1], [.send 1 "boom/"], [.close 1]]) = [] :=
+  ⟨judge_crash_clause _ _ _ ⟨rfl, fun _ => rfl, rfl, rfl, rfl, rfl⟩ rfl,
+   judge_report_clause _ _ _ ⟨rfl, fun _ => rfl, rfl, rfl, rfl, rfl⟩ rfl⟩
 example : Fresh ({ mode := .console, meh := .recurse, hbs := [.obj 1, .obj 2],
                    callouts := [{ owner := .obj 1, tag := "p", due := T0 + 3 }] } : W) :=
   ⟨rfl, fun _ => rfl, rfl, rfl, rfl, rfl⟩
